@@ -246,11 +246,30 @@ def shards(tier, seed):
     nsh = 16 if tier == "quick" else 64
     for i in range(nsh):
         out.append({"part": "random", "n": n // nsh, "seed": core.derive_seed(seed, "r", i)})
+    from vlib import fuzz
+
+    out += fuzz.shards("C12", tier, seed, quick=(2, 2000), thorough=(16, 60000))
     return out
+
+
+def fuzz_strategy(which):
+    def to_case(c):
+        c = dict(c)
+        c.pop("_dropped_mix", None)
+        return c
+
+    return _hyp(), to_case
 
 
 def run_shard(spec):
     col = core.Collector()
+    if spec["part"] == "atheris":
+        import sys
+
+        from vlib import fuzz
+
+        fuzz.run_shard(col, sys.modules[__name__], spec)
+        return col
     if spec["part"] == "exhaustive":
         for i, case in enumerate(ex_cases(spec["L"])):
             if not (spec["lo"] <= i < spec["hi"]):
